@@ -20,6 +20,8 @@ var c03Payloads = []struct{ name, text string }{
 	{"leftover-tokens", "${{ a b }}"},
 	{"empty", "${{ }}"},
 	{"unterminated-string", "${{ 'x }}"},
+	// the malformed placeholder is not the first one in the string
+	{"after-valid-placeholder", "${{ 1 }}-${{ a + }}"},
 }
 
 // c03Quote renders text as a single-quoted YAML scalar.
@@ -319,6 +321,15 @@ func c03Check(r *vReport, sd *c03Seed, ps []*vPos, payload int) {
 				syn = true
 			}
 		}
+		if !syn && strings.Count(c03Payloads[payload].text, "${{") >= 2 {
+			// a field that takes exactly one expression rejects a text with two placeholders at the
+			// YAML-to-AST level: reported at the scalar, which is what the statement asks for there
+			for _, d := range at {
+				if d.Kind == "syntax-check" {
+					syn = true
+				}
+			}
+		}
 		if !syn {
 			r.Violation(which+"not-a-syntax-error:"+p.NPath, fmt.Sprintf("%s: %s placeholder at %s is reported, but not as an expression syntax error: %v", sd.name, c03Payloads[payload].name, p.Path, at), replay)
 		}
@@ -347,7 +358,7 @@ func TestVerifC03(t *testing.T) {
 	if vThorough() {
 		r.Bounds["simultaneous_mutations"] = 2
 	}
-	r.Extra["rule"] = "4 maximal seeds covering every key of the workflow syntax + every clean reduction of a mapping to its mandatory keys plus one pair of optional keys + every mapping rewritten with each key moved to the front and in reversed order (positions inside that mapping); every scalar value position (mapping values and sequence elements at any depth) x 4 malformed placeholders spliced as single-quoted scalars; thorough: also every pair of scalar positions inside one mapping mutated together. class = normalised schema path of the position; non-trivial = position where an expression syntax error is required"
+	r.Extra["rule"] = "4 maximal seeds covering every key of the workflow syntax + every clean reduction of a mapping to its mandatory keys plus one pair of optional keys + every mapping rewritten with each key moved to the front and in reversed order (positions inside that mapping); every scalar value position (mapping values and sequence elements at any depth) x 5 malformed placeholders (one of them after a valid placeholder in the same string) spliced as single-quoted scalars; thorough: also every pair of scalar positions inside one mapping mutated together. class = normalised schema path of the position; non-trivial = position where an expression syntax error is required"
 	r.Extra["assumptions"] = []string{"positions are those reachable from the seeds (one occurrence of every key of appendix C); block-style mappings only"}
 
 	if raw := vReplayInput(); raw != nil {
